@@ -519,8 +519,24 @@ def cheap_requests(rng, n):
     if ep != "spe_search":
       kw["ntask"] = rng.choice([0, 0, 2, 3])
     kw["discrete_only"] = rng.random() < 0.15
+    if i % 16 == 5:
+      kw["constraints"] = "both"           # double- AND int-typed constraints (their order in the list is shuffled)
     r = U.gen_request(rng, ep, **kw)
     r["budget"] = max(1, int(r["n_obs"] * phases[(i // 3) % 6] + rng.choice([0, 0, 1])))
+    reqs.append(r)
+  for j in range(max(4, n // 90)):
+    # a converged experiment: the best observations cluster tightly, a batch is requested (the Parzen endpoints' rejection sampler may run dry)
+    r = U.gen_request(rng, ["spe", "spe_search"][j % 2], n_obs=rng.randint(30, 45), constraints="no", priors="no", discrete_only=False,
+                      num_to_sample=rng.choice([5, 12, 20]), npend=0, ntask=0, cluster=rng.choice([0.001, 0.003, 0.01]), failp=0.0)
+    r["comps"] = [dict(var_type="double", elements=[0.0, 1.0]) for _ in range(rng.randint(2, 3))]
+    r["cons"], r["priors"] = [], None
+    r["budget"] = 3 * r["n_obs"]
+    reqs.append(r)
+  for j in range(max(4, n // 90)):
+    # multitask request on a thin int-constrained band: fewer points than requested may come back - one task cost per RETURNED point
+    r = short_batch_request()
+    r.update(endpoint="spe", ntask=rng.choice([2, 3]), num_to_sample=rng.choice([3, 6]), n_obs=rng.randint(12, 30), seed=rng.randint(0, 2 ** 31 - 1),
+             budget=rng.choice([40, 400]), nopt=1, ncon=0)
     reqs.append(r)
   return reqs
 
